@@ -66,6 +66,15 @@ CHECKS.update({
     "C15": _std("fault_enumeration", "Hypothesis-selected cases x exhaustive enumeration of (hook, invocation index | always) x rotating exception types; trace-equality metamorphic oracle",
         "For every generated case each hook invocation is faulted in turn (and 'always'), with exception types rotating over 9 Exception subclasses; the observable trace must equal the silent-hook trace, including the other sink, the timeline, breaker and budget calls.",
         E1_NOTE, "DESIGN.md §3 C15"),
+    "C06": _std("exploration", "Model-based history generation (Hypothesis) + exhaustive short histories against an independent reference breaker model",
+        "Generated breaker configurations and operation histories with symbolic boundary advances (failure aged to exactly window_s, recovery boundary); after every operation return value and state must equal an independent model; all histories up to length 5/6 over an 8-letter alphabet are enumerated for 3 configurations.",
+        "the breaker reads time through time.monotonic (default clock) routed to a virtual clock; times on the exact k/64 s grid", "DESIGN.md §3 C06"),
+    "C07": _std("exploration", "Model-based histories at component and policy level + generated interleavings of stepped coroutines (harness-owned schedule)",
+        "Three streams: component histories vs reference model; sequences of policy calls through mixed entry points sharing a real breaker with direct operations and exact-timeout clock advances; 2-4 AsyncPolicy calls stepped under generated interleavings with the invariant 'at most one admitted probe outstanding' and 'a call never admitted does not record'.",
+        "straggler records are not flagged (the breaker API has no call identity); schedules are generated, not exhaustive", "DESIGN.md §3 C07"),
+    "C10": _std("exploration", "Model-based history generation + exhaustive short histories for Budget; generated multi-policy runs sharing one budget vs window model",
+        "Generated consume/remaining/advance histories with boundary ages against an independent window model plus the sliding-window bound; all histories up to length 6/7 enumerated for 4 configurations; 2-3 policies (sync and async) sharing a pre-aged budget, every consume result and every retry/budget_exhausted event checked against the model.",
+        "Budget reads time.monotonic through the dispatcher; times on the exact k/64 s grid", "DESIGN.md §3 C10"),
 })
 
 PENDING_REASON = "check not built yet in this snapshot (work in progress; see DESIGN.md §3 for the planned generated-input check)"
